@@ -149,7 +149,7 @@ def runJob : Nat → DS → Job → DS
     let d := { d with hruns := d.hruns ++ [{ conn := c, inline := inline, cur := [], rest := progs }] }
     runJob f d (.handler i)
   | f + 1, d, .readerLoop c =>
-    -- connection.py:311 `while not self._is_closing` … 316 `receive_message_object()`
+    -- connection.py:319 `while not self._is_closing` … 321 `receive_message_object()`
     if d.s.closing.contains c then d
     else match popInbox c d.inbox with
       | none => { d with parked := c :: d.parked }
@@ -178,7 +178,7 @@ def runJob : Nat → DS → Job → DS
           if d.gatesOpen.contains g then runJob f next (.handler i)
           else { next with gateWait := next.gateWait ++ [(g, i)] }
         | .close c =>
-          -- `Connection.disconnect`: nothing when already CLOSING / CLOSED (connection.py:262)
+          -- `Connection.disconnect`: nothing when already CLOSING / CLOSED (connection.py:272)
           let d := if next.s.closing.contains c then next else prim next (.connState c true)
           runJob f d (.handler i)
         | .raw tag m => runJob f (spawnRaw next tag m) (.handler i)
@@ -252,7 +252,7 @@ def runItem (d : DS) : Item → DS
   | .failT k => prim d (.sendFails k (d.sendCancelled.contains k))
   | .abortT k => prim d (.sendFails k true)
   | .reader c =>
-    -- woken inside `receive_message_object`: the message is taken; connection.py:330 skips it when closing
+    -- woken inside `receive_message_object`: the message is taken; connection.py:335-336 skips it when closing
     match popInbox c d.inbox with
     | none => { d with parked := c :: d.parked }
     | some ((μ, progs), rest) =>
